@@ -213,7 +213,15 @@ func c18Extra(t Tier, ev *Evidence) []Violation {
 	}
 	hist["stream_key_parses"] = parse
 	// keeper round trips on a scratch context of the real application
-	rt := c18RoundTrips(bad)
+	rt := 0
+	func() {
+		defer func() {
+			if p := recover(); p != nil {
+				bad("roundtrip", "keeper round trips abort with a panic: %v", firstLine(fmt.Sprint(p)))
+			}
+		}()
+		rt = c18RoundTrips(bad)
+	}()
 	hist["keeper_round_trips"] = rt
 	ev.Level = "exploration"
 	ev.Coverage["evaluations"] = evals + parse + rt
@@ -370,15 +378,22 @@ func c18RoundTrips(bad func(kind, f string, a ...any)) int {
 		}
 	}
 	seen := map[string]bool{}
-	sk.IterateAllStreams(ctx, func(r, s sdk.AccAddress, st streamtypes.Stream) bool {
-		n++
-		want, ok := sk.GetStream(ctx, r, s)
-		if !ok || want.FlowRate != st.FlowRate {
-			bad("listing", "a listed stream is reported with receiver %x sender %x, which is not the pair it was created with", []byte(r), []byte(s))
-		}
-		seen[string(r)+"|"+string(s)] = true
-		return false
-	})
+	func() {
+		defer func() {
+			if p := recover(); p != nil {
+				bad("listing", "listing all streams panics: %v", firstLine(fmt.Sprint(p)))
+			}
+		}()
+		sk.IterateAllStreams(ctx, func(r, s sdk.AccAddress, st streamtypes.Stream) bool {
+			n++
+			want, ok := sk.GetStream(ctx, r, s)
+			if !ok || want.FlowRate != st.FlowRate {
+				bad("listing", "a listed stream is reported with receiver %x sender %x, which is not the pair it was created with", []byte(r), []byte(s))
+			}
+			seen[string(r)+"|"+string(s)] = true
+			return false
+		})
+	}()
 	if len(seen) != len(sa)*len(sa) {
 		bad("listing", "listing streams returns %d distinct pairs, %d were created", len(seen), len(sa)*len(sa))
 	}
